@@ -35,7 +35,9 @@ CONSTANTS W,                  \* bits per storage word
           ReadMasksWordOfLen, \* FALSE = before "fix: Bvf::read kept the surplus bits ..."
           PopClears,          \* FALSE = pop() leaves the popped bit in storage (a seeded change)
           ShlInMasks,         \* FALSE = shl_in() does not mask the partial last word (a seeded change)
-          CopyRangeMasks      \* FALSE = copy_range() does not mask the word holding the last bit (a seeded change)
+          CopyRangeMasks,     \* FALSE = copy_range() does not mask the word holding the last bit (a seeded change)
+          RotUsedBitsOnly,    \* FALSE = word-aligned rotations rotate the whole allocation, spare words included (a seeded change)
+          CloneFromFresh      \* FALSE = clone_from() reuses the destination's storage without clearing the words it does not overwrite (a seeded change)
 
 VARIABLE s                    \* [len, raw]
 
@@ -148,8 +150,66 @@ CopyRangeOp(v, st, e) ==
       r1 == IF n % W = 0 \/ ~CopyRangeMasks THEN r0 ELSE MaskWord(r0, n \div W, n % W)
   IN [len |-> n, raw |-> r1]
 
-\* read(stream, n): from_bytes stores WHOLE "bytes" (here: units of BYT bits), then the surplus is masked
 BYT == IF W % 2 = 0 THEN 2 ELSE 1     \* "byte" size of the model: must divide W, as 8 divides every real word size
+
+\* rotl / rotr: a NEW zeroed allocation of the same number of words; the chunk loop writes positions
+\* below len only.  (Seeded variant: a "fast path" for word-aligned lengths and amounts that rotates
+\* the storage words themselves - every allocated word, also the spare ones.)
+RotOp(v, k, left) ==
+  LET n == v.len
+      src(p) == IF left THEN ((p - 1 + n - (k % n)) % n) + 1 ELSE ((p - 1 + k) % n) + 1
+      all == Len(v.raw)
+      srcAll(p) == IF left THEN ((p - 1 + all - (k % all)) % all) + 1 ELSE ((p - 1 + k) % all) + 1
+  IN IF n = 0 THEN [v EXCEPT !.raw = Zeros(Len(v.raw))]
+     ELSE IF ~RotUsedBitsOnly /\ n % W = 0 /\ k % W = 0
+     THEN [v EXCEPT !.raw = [p \in 1..all |-> v.raw[srcAll(p)]]]
+     ELSE [v EXCEPT !.raw = [p \in 1..all |-> IF p <= n THEN v.raw[src(p)] ELSE 0]]
+
+\* append(y): resize(len + |y|, 0), then y is written unit by unit (64-bit words for the allocation,
+\* bytes through set_int for the array): the unit holding the old top bit is OR-ed, the following
+\* units are ASSIGNED (whatever they held is overwritten), one unit beyond the last chunk included
+\* when the old length is not unit-aligned.  Units that are not touched keep what resize left there.
+UNIT == IF Dyn THEN W ELSE BYT
+AppendOp(v, y) ==
+  LET U     == UNIT
+      off   == v.len % U
+      slide == v.len \div U
+      v1    == SResize(v, v.len + Len(y), 0)
+      nch   == (Len(y) + U - 1) \div U
+      ybit(p) == At(y, p - v.len)                 \* the operand is read through get_int: zero beyond its length
+      exists(u) == IF Dyn THEN u * U < Len(v1.raw) ELSE u * U < v1.len     \* data.get_mut(u) / set_int's bound
+      touched(u) == IF off = 0 THEN slide <= u /\ u < slide + nch
+                    ELSE slide < u /\ u <= slide + nch /\ exists(u)
+      r == [p \in 1..Len(v1.raw) |->
+             LET u == (p - 1) \div U  q == (p - 1) % U IN
+             IF nch = 0 THEN v1.raw[p]
+             ELSE IF off # 0 /\ u = slide THEN (IF q >= off /\ ybit(p) = 1 THEN 1 ELSE v1.raw[p])
+             ELSE IF touched(u) THEN (IF ~Dyn /\ p > v1.len THEN 0 ELSE ybit(p))
+             ELSE v1.raw[p]]
+  IN [len |-> v1.len, raw |-> r]
+
+\* prepend(y) of the allocation: resize, <<= |y|, then the prefix's whole words are assigned and its
+\* last word OR-ed in
+PrependOp(v, y) ==
+  IF Len(y) = 0 THEN v
+  ELSE LET v1 == SResize(v, v.len + Len(y), 0)
+           v2 == ShlAssign(v1, Len(y))
+           last == Words(Len(y)) - 1
+           r == [p \in 1..Len(v2.raw) |->
+                  LET u == (p - 1) \div W IN
+                  IF u < last THEN At(y, p)
+                  ELSE IF u = last THEN (IF At(y, p) = 1 THEN 1 ELSE v2.raw[p])
+                  ELSE v2.raw[p]]
+       IN [len |-> v2.len, raw |-> r]
+
+\* Clone::clone_from(&mut v, &src): Clone is derived, so the destination is dropped and replaced by a
+\* copy of the source's whole allocation.  (Seeded variant: the destination's storage is kept when it
+\* has room, the source's used words are copied over it and the rest is left as it was.)
+CloneFromOp(v, src) ==
+  IF CloneFromFresh \/ ~Dyn \/ NWords(v) < Words(src.len) THEN src
+  ELSE [len |-> src.len, raw |-> [p \in 1..Len(v.raw) |-> IF p <= W * Words(src.len) THEN src.raw[p] ELSE v.raw[p]]]
+
+\* read(stream, n): from_bytes stores WHOLE "bytes" (here: units of BYT bits), then the surplus is masked
 ReadOp(bits, n) ==
   LET nb  == (n + BYT - 1) \div BYT
       all == Fit(bits, nb * BYT)
@@ -210,6 +270,12 @@ SNext ==
   \/ \E b \in {0, 1} : Step(ShlInOp(s, b), ShlIn(Abs(s), b).v)
   \/ \E b \in {0, 1} : Step(ShrInOp(s, b), ShrIn(Abs(s), b).v)
   \/ \E st \in 0..s.len : \E e \in st..s.len : Step(CopyRangeOp(s, st, e), CopyRange(Abs(s), st, e))
+  \/ \E k \in 0..(Cap + 1) : Step(RotOp(s, k, TRUE), Rotl(Abs(s), k))
+  \/ \E k \in 0..(Cap + 1) : Step(RotOp(s, k, FALSE), Rotr(Abs(s), k))
+  \/ \E y \in Operands : s.len + Len(y) <= Cap /\ Step(AppendOp(s, y), Abs(s) \o y)
+  \/ \E y \in Operands : Dyn /\ s.len + Len(y) <= Cap /\ Step(PrependOp(s, y), y \o Abs(s))
+  \/ \E y \in Operands, extra \in {0, W} :
+       Len(y) + extra <= Cap /\ Step(CloneFromOp(s, Reserve(Fresh(y), extra)), y)
   \/ \E k \in 0..Cap : Dyn /\ s.len + k <= Cap /\ Step(Reserve(s, k), Abs(s))
   \/ Dyn /\ Step(ShrinkToFit(s), Abs(s))
   \/ \E n \in 0..Cap, bits \in {Ones(Cap + BYT), [i \in 1..(Cap + BYT) |-> i % 2]} :
